@@ -387,6 +387,53 @@ example : query (.dict [(.i 5, .leaf (.str ['x']))]) [.i 5] = .ok (.leaf (.str [
 theorem C10_traverse_nodup (v : Val) (hn : nodupVal v = true) :
     ((visitsPre v []).map (·.1)).Nodup := (walkOK v hn []).1
 
+/-- The post-order log is a rearrangement of the pre-order log: post-order visitors see exactly the
+same (path, node) pairs, so `C10_traverse_lookup`, `_complete` and `_nodup` hold for them too. -/
+theorem C10_traverse_post_perm (v : Val) : (visitsPost v []).Perm (visitsPre v []) := visitsPost_perm v []
+
+theorem C10_traverse_post_nodup (v : Val) (hn : nodupVal v = true) : ((visitsPost v []).map (·.1)).Nodup :=
+  ((visitsPost_perm v []).map (·.1)).nodup_iff.mpr (walkOK v hn []).1
+
+theorem C10_traverse_post_lookup (v : Val) (q : Path) (x : Val) (hn : nodupVal v = true)
+    (h : (q, x) ∈ visitsPost v []) : query v q = .ok x :=
+  C10_traverse_lookup v q x hn ((visitsPost_perm v []).mem_iff.mp h)
+
+/-- `pg.query` (selecting the leaves) returns a dict keyed by the printed path with exactly one entry
+per leaf, in visiting order — on values whose dict keys are well-formed no two nodes collide. -/
+theorem C10_query_dict_exact (v : Val) (hn : nodupVal v = true) (hw : wfVal v = true) :
+    queryLeaves v = ((visitsPre v []).filter (fun pv => isLeaf pv.2)).map (fun pv => (Key.s (pathStr pv.1), pv.2)) := by
+  have h := printedDict_exact v hn hw (fun pv => if isLeaf pv.2 then some pv else none)
+    (fun x y e => by
+      by_cases hx : isLeaf x.2 = true
+      · simp only [hx, if_true, Option.some.injEq] at e; rw [e]
+      · simp [hx] at e)
+  have e : (visitsPre v []).filterMap (fun pv => if isLeaf pv.2 then some pv else none) =
+      (visitsPre v []).filter (fun pv => isLeaf pv.2) := by
+    generalize visitsPre v [] = L
+    induction L with
+    | nil => rfl
+    | cons x rest ih =>
+      by_cases hx : isLeaf x.2 = true
+      · simp [List.filterMap_cons, List.filter_cons, hx, ih]
+      · simp [List.filterMap_cons, List.filter_cons, hx, ih]
+  rw [e] at h
+  exact h
+
+/-- The rebinder dictionary (`rebind(fn)` / `get_rebind_dict`, here for "add one to every int leaf")
+has exactly one entry per changed node, keyed by its printed path; with `C10_rebinder` each key
+parses back to the path of that node. -/
+theorem C10_rebinder_dict_exact (v : Val) (hn : nodupVal v = true) (hw : wfVal v = true) :
+    rebindInts v = ((visitsPre v []).filterMap intBump).map (fun pv => (Key.s (pathStr pv.1), pv.2)) :=
+  printedDict_exact v hn hw intBump (fun x y e => by
+    obtain ⟨p, x⟩ := x
+    cases x with
+    | leaf a => cases a with
+      | int z => simp only [intBump, Option.some.injEq] at e; rw [← e]
+      | none => simp [intBump] at e
+      | str _ => simp [intBump] at e
+    | dict _ => simp [intBump] at e
+    | list _ => simp [intBump] at e)
+
 /-! ## 5. flatten / canonicalize
 
 `canonical fck v` (decidable, `PgProofs/Canon.lean`) spells out what the flat form can express:
